@@ -178,6 +178,31 @@ try (case: (p_same_dims e)=> //=; by case: ah Ha=> [|[]] //= Ha; rewrite /is_her
 Qed.
 End Fun.
 
+(* ---- solver functions that return a symmetrised matrix flagged isherm=True:
+   propagator_steadystate  Qobj(add(x, adjoint(x)), isherm=True)
+   _steadystate_direct     rho = add(rho, rho.adjoint()) * 0.5; Qobj(rho, isherm=True)
+   _steadystate_power      rho = rho + rho.dag(); rho = rho / rho.tr(); rho.isherm = True *)
+Lemma herm_symm n (X : 'M[R]_n) : is_herm (X + dag X).
+Proof. by rewrite /is_herm (dag_add conj) (dagK conjK) addrC. Qed.
+Lemma conj_half : conj (2%:R^-1) = 2%:R^-1.
+Proof. by rewrite fmorphV rmorph_nat. Qed.
+Lemma prop_ss_sound n e (X : 'M[R]_n) :
+  sound_h (prop_ss_herm e) (X + dag X) /\ sound_u (prop_ss_unit e) (X + dag X)
+  /\ prop_ss_data = DSymm.
+Proof. by split; [exact: herm_symm|]. Qed.
+Lemma ss_direct_sound n e (X : 'M[R]_n) :
+  sound_h (ss_direct_herm e) (2%:R^-1 *: (X + dag X))
+  /\ sound_u (ss_direct_unit e) (2%:R^-1 *: (X + dag X)) /\ ss_direct_data = DSymmHalf.
+Proof. by split; [apply: herm_scale; [exact: conj_half|exact: herm_symm]|]. Qed.
+Lemma ss_power_sound n e (X : 'M[R]_n) :
+  let H := X + dag X in
+  sound_h (ss_power_herm e) ((\tr H)^-1 *: H) /\ sound_u (ss_power_unit e) ((\tr H)^-1 *: H)
+  /\ ss_power_data = DSymmNormTr.
+Proof.
+move=> H; split=> //; apply: herm_scale; last exact: herm_symm.
+by rewrite fmorphV (herm_trace_real (herm_symm X)).
+Qed.
+
 (* ---- in-place normalisation: data <- z *: data *)
 Lemma unit_inplace_sound n e (A : 'M[R]_n) z : (0 < n)%N -> z != 0 -> sound_a e A -> scal_ok e z ->
   sound_h (unit_inplace_herm e) (z *: A) /\ sound_u (unit_inplace_unit e) (z *: A)
